@@ -14,6 +14,8 @@ from ..dataflow import forward_derived, operand_term, single_def, raw_operand_pl
 from ..facts import AnchorMissing
 from .common import PA, where, short, emptiness_gate, classify_switch, only_via_edge
 
+CRATES = ["parol.lib", "parol_runtime.lib"]
+
 META = {
     "explanation": "Decides the rejection wiring of C11: a grammar can reach the transformation stages only when the "
                    "non-productive, unreachable and (LL) left-recursive sets were computed and found empty, and each "
